@@ -76,6 +76,9 @@ impl Resolver {
         let to_check: &[Namespace] = match context {
             // Quantities are made of quantities and base units.
             Namespace::Quantity => &[Namespace::Quantity, Namespace::Unit],
+            // A prefix is defined by other prefixes, also where a unit
+            // has the same name.
+            Namespace::Prefix => &[Namespace::Prefix, Namespace::Unit, Namespace::Quantity],
             _ => &[Namespace::Unit, Namespace::Prefix, Namespace::Quantity],
         };
         for namespace in to_check.iter().copied() {
